@@ -16,15 +16,15 @@ class C12(SessionCheck):
             'counting threads and file descriptors. Non-trivial = history >= 8 commands / any socket run.')
     ASSUMPTIONS = ['what epoll / paramiko report for a locally closed descriptor is the environment parameter of the model '
                    '(Spec/Session.lean workerOpClosed); the real-socket runs observe it on Linux for Unix and TLS sockets; '
-                   'the SSH transport is exercised through the lock-step fake channel (no SSH server in the quick tier)']
+                   'the SSH transport is exercised through the lock-step fake channel (an in-process paramiko SSH server covers the SSH transport)']
 
     def e2e_cases(self, rng, tier):
         out = []
-        trs = ['unix', 'tls'] if tier == 'thorough' else ['unix', 'tls']
+        trs = ['unix', 'tls', 'ssh']
         for tr in trs:
             for how in ('close_session', 'with', 'with-exception'):
                 for infl in (False, True):
-                    if tier == 'quick' and tr == 'tls' and (infl or how == 'with'):
+                    if tier == 'quick' and tr in ('tls', 'ssh') and (infl or how == 'with'):
                         continue
                     out.append({'kind': 'e2e', 'life': True, 'sc': {'mode': 'close', 'transport': tr, 'how': how, 'inflight': infl,
                                                                      'profile': rng.choice(SG.PROFILES)}})
